@@ -28,6 +28,9 @@ def parseStyle (s : String) : Option (Option Style) :=
   | ["custom", a, b, c] => do
     let st : Style := ⟨← unhex a, ← unhex b, ← unhex c⟩
     pure (if st.lengthsOk then some st else none)
+  | "custom" :: rest => do
+    let _ ← rest.mapM unhex
+    pure none               -- a list that does not hold 3 strings: ValueError
   | [k] =>
     match Generated.printStyles.find? (·.1 == k) with
     | some (_, a, b, c) =>
@@ -45,7 +48,7 @@ def parseHStyle (s : String) : Option (Option HStyle) :=
   match s.splitOn ":" with
   | "custom" :: rest => do
     let l ← rest.mapM unhex
-    if l.length != 7 then none else pure (mkH l)
+    pure (mkH l)            -- not 7 icons, or an icon that is not one character: ValueError
   | [k] =>
     match Generated.hprintStyles.find? (·.1 == k) with
     | some (_, l) => some (mkH (l.map String.toList))
@@ -94,7 +97,7 @@ def valStr : Val → Str
 
 def strLe (a b : Str) : Bool := a.map Char.toNat ≤ b.map Char.toNat
 
-def attrStr (mode : String) (omit : Bool) (bo bc : Str) (t : Tree) : Option Str := do
+def attrStr (mode : String) (omitNull : Bool) (bo bc : Str) (t : Tree) : Option Str := do
   let items : List Str ←
     if mode == "all" then
       pure ((t.attrs.mergeSort fun x y => strLe x.1 y.1).map fun (k, v) => k ++ '=' :: valStr v)
@@ -102,7 +105,7 @@ def attrStr (mode : String) (omit : Bool) (bo bc : Str) (t : Tree) : Option Str 
       let keys ← (mode.splitOn ",").mapM unhex
       pure (keys.filterMap fun k =>
         match t.attrs.lookup k with
-        | some v => if omit && v == .null then none else some (k ++ '=' :: valStr v)
+        | some v => if omitNull && v == .null then none else some (k ++ '=' :: valStr v)
         | none => none)
   let s := ", ".toList.intercalate items
   pure (if s.isEmpty then [] else ' ' :: bo ++ s ++ bc)
@@ -136,14 +139,14 @@ def handle (toks : List String) : String :=
           let mode := (kv toks "attrs").getD "-"
           if mode == "-" then pure (hexList (lines.map Line.text))
           else
-            let omit := (kv toks "omit").getD "0" == "1"
+            let omitNull := (kv toks "omit").getD "0" == "1"
             let (bo, bc) ← match ((kv toks "br").getD "x5b:x5d").splitOn ":" with
               | [a, b] => do pure ((← unhex a), (← unhex b))
               | _ => none
             -- the i-th line belongs to the i-th node of the pruned tree in pre-order
             let nodes := preTrees (prune md sub)
             let strs ← (lines.zip nodes).mapM fun (l, n) => do
-              pure (l.text ++ (← attrStr mode omit bo bc n))
+              pure (l.text ++ (← attrStr mode omitNull bo bc n))
             pure (hexList strs)
       | _, _ => pure "rej"
     | "hyield" | "hdec" =>
